@@ -119,7 +119,7 @@ func (d *syslogRFC3164Decoder) Decode(data []byte, _ ...any) (any, error) {
 	// optional procid
 	if data[0] == '[' {
 		offset = bytes.IndexByte(data, ']')
-		if offset < 0 || data[offset+1] != ':' {
+		if offset < 0 || offset+1 >= len(data) || data[offset+1] != ':' {
 			return row, fmt.Errorf("failed to parse ProcID: %w", errSyslogInvalidFormat)
 		}
 		row.ProcID = data[1:offset]
